@@ -365,6 +365,12 @@ func (p *c13prop) Gen(kind string, idx int64, seed int64, tier string) core.Case
 			reset = POp{K: "reset", A: 1 + r.Intn(3), B: r.Intn(1 + r.Intn(400)), C: r.Intn(20)}
 		}
 		cc.H2 = append([]POp{reset}, GenOps(r, 10+r.Intn(50), w)...)
+		if class == "reset" && r.Intn(4) == 0 {
+			// a Reset that is rejected (data longer than BufferSize) right
+			// before the one that counts: the refused call must not leave
+			// anything behind
+			cc.H2 = append([]POp{{K: "reset", A: 4, B: r.Intn(5), C: 2 * r.Intn(2)}}, cc.H2...)
+		}
 	}
 	return core.MkCase(p.id, kind, idx, seed, tier, cc)
 }
